@@ -9,7 +9,7 @@ demo_clean=$(cd /tmp && PYTHONPATH="$wt" TQDM_DISABLE=1 timeout 300 /venv/bin/py
 if git -C "$wt" apply "$d/patch.diff" 2>/dev/null || git -C "$wt" apply -3 "$d/patch.diff" 2>/dev/null; then
   res="applies=yes"
   demo_mut=$(cd /tmp && PYTHONPATH="$wt" TQDM_DISABLE=1 timeout 300 /venv/bin/python "$d/demo.py" >/dev/null 2>&1; echo $?)
-  base=$(REPO_DIR="$wt" /venv/bin/python /tmp/seed2/baseline.py 2>&1 | grep -m1 baseline:)
+  base=$(REPO_DIR="$wt" /venv/bin/python ${SEED_BASELINE:-/tmp/seed3/baseline.py} 2>&1 | grep -m1 baseline:)
   res="$res demo_clean_rc=$demo_clean demo_mutant_rc=$demo_mut $base"
 fi
 git -C /repo worktree remove --force "$wt"
